@@ -57,6 +57,11 @@ v("v_override_start_value", "SubTimeline::override_start_value", ["C09", "C10", 
   clause="frames, map untouched; override REPLACED by frame0.with_value(v) (time, easing of frame 0); wf and linked preserved; no-op on empty")
 v("v_value_at", "SubTimeline::value_at", ["C01", "C02", "C08", "C10", "C20"],
   clause="for EVERY size: empty map / hint outside => None (field never assigned); else Some(interpolate(lookup(clamp t), clamp t)): clamp before lookup, the pair is spec_bounding's")
+v("v_merged_update", "MergedTimeline::update", ["C12"],
+  clause="for ANY number of components, each an arbitrary implementation of Timeline::update: the target afterwards == fold_update(components, target before, time, len), i.e. the components applied in order to the same target at the same time (loop invariant over the real for-loop)")
+v("v_prepare_frame", "prepare_frame", ["C01", "C04", "C10", "C20"],
+  clause="for EVERY number of master keyframes (sorted valid positions): None iff there are none; else the position is get_position's (0 when not started), the master index satisfies hint_ok (keyframe[idx] <= t <= keyframe[idx+1], or t before the first and idx==0) - the precondition of the lookup lemma - and the start-override flag == not-started || (active && !repeating && !reversing); `max(1) - 1` cannot underflow. Assumes std's binary-search contract (A7)")
+V[-1]["assumes"] = ["A2", "A7"]
 v("v_empty", "SubTimeline::empty", ["C08"], clause="empty frames, empty map, no override, wf")
 v("v_split_new", "SplitKeyframe::new", ["C01"], clause="fields are the arguments")
 v("v_split_with_time", "SplitKeyframe::with_time", ["C01"], clause="time replaced, value cloned, easing kept")
